@@ -250,6 +250,10 @@ impl TryFrom<OpenFile> for Stdio {
 
 impl std::io::Read for OpenFile {
     fn read(&mut self, buf: &mut [u8]) -> std::io::Result<usize> {
+        #[cfg(feature = "verif-hooks")]
+        if let Some(e) = crate::verif::io_point(self, false, buf.len()) {
+            return Err(e);
+        }
         match self {
             Self::Stdin(f) => f.read(buf),
             Self::Stdout(_) => Err(std::io::Error::other(
@@ -272,6 +276,10 @@ impl std::io::Read for OpenFile {
 
 impl std::io::Write for OpenFile {
     fn write(&mut self, buf: &[u8]) -> std::io::Result<usize> {
+        #[cfg(feature = "verif-hooks")]
+        if let Some(e) = crate::verif::io_point(self, true, buf.len()) {
+            return Err(e);
+        }
         match self {
             Self::Stdin(_) => Err(std::io::Error::other(
                 error::ErrorKind::OpenFileNotWritable("stdin"),
